@@ -243,13 +243,19 @@ namespace ip {
 				m_send_timer.expires_at(m_next_send + m_send_queue_time / 2);
 
 				m_wait_send_handler = std::move(handler);
-				m_send_timer.async_wait([this](boost::system::error_code const& e)
+				// the expiry may already be posted when the socket is closed,
+				// re-opened or destroyed: find the socket through its forwarder,
+				// which is detached by close()
+				std::weak_ptr<aux::sink_forwarder> const fwd = m_forwarder;
+				m_send_timer.async_wait([fwd](boost::system::error_code const& e)
 				{
+					auto const f = fwd.lock();
+					auto* const self = f ? static_cast<udp::socket*>(f->destination()) : nullptr;
 					// when the wait was aborted, abort_send_handlers() has
 					// already completed the handler
-					if (e || !m_wait_send_handler) return;
-					auto h = std::move(m_wait_send_handler);
-					m_wait_send_handler = nullptr;
+					if (e || !self || !self->m_wait_send_handler) return;
+					auto h = std::move(self->m_wait_send_handler);
+					self->m_wait_send_handler = nullptr;
 					h(boost::system::error_code());
 				});
 				return;
